@@ -4,6 +4,7 @@ import (
 	"go/ast"
 	"go/token"
 	"go/types"
+	"strings"
 
 	"golang.org/x/tools/go/cfg"
 	"golang.org/x/tools/go/packages"
@@ -94,6 +95,7 @@ func c03RequestIn(c *core.Ctx, f *flow.Func, sc *c03scope, stores []*c03hdrStore
 	}
 	// viaInbound: a selector chain that passes through a method call on the inbound request
 	viaInbound := func(e ast.Expr, methods ...string) bool {
+		hops := 0
 		for e != nil {
 			switch x := ast.Unparen(e).(type) {
 			case *ast.SelectorExpr:
@@ -103,6 +105,21 @@ func c03RequestIn(c *core.Ctx, f *flow.Func, sc *c03scope, stores []*c03hdrStore
 					return true
 				}
 				e = x.Fun
+			case *ast.Ident:
+				// a value cached in a local (u := req.Std().URL) or handed to a helper
+				o := c03obj(f, x)
+				defs := c03defs(f, o)
+				switch {
+				case len(defs) == 0 && sc.bindExpr[o] != nil:
+					e = sc.bindExpr[o]
+				case len(defs) == 1 && defs[0].rhs != nil:
+					e = defs[0].rhs
+				default:
+					return false
+				}
+				if hops++; hops > 6 {
+					return false
+				}
 			default:
 				return false
 			}
@@ -441,10 +458,19 @@ func c03RequestIn(c *core.Ctx, f *flow.Func, sc *c03scope, stores []*c03hdrStore
 	}
 	// mirror / stream atoms
 	var mirrorKeys []string
+	// modeParams: parameters of a named integer type (an enum-like mode replacing the mirror
+	// flag): a comparison mode == <constant> known true plays the role of `mirror`
+	var modeParams []string
 	for _, g := range sc.fns {
 		if fd, ok := g.Node.(*ast.FuncDecl); ok {
 			for _, fl := range fd.Type.Params.List {
 				for _, id := range fl.Names {
+					pt := f.Info.Defs[id].Type()
+					if b, ok := pt.Underlying().(*types.Basic); ok && b.Info()&types.IsInteger != 0 {
+						if _, named := pt.(*types.Named); named {
+							modeParams = append(modeParams, "eq:"+f.Render(id)+"==")
+						}
+					}
 					if b, ok := f.Info.Defs[id].Type().Underlying().(*types.Basic); ok && b.Kind() == types.Bool {
 						mirrorKeys = append(mirrorKeys, f.VarKey(id))
 					}
@@ -473,6 +499,15 @@ func c03RequestIn(c *core.Ctx, f *flow.Func, sc *c03scope, stores []*c03hdrStore
 		for _, k := range mirrorKeys {
 			if st.Is(k, flow.True) {
 				mirror = true
+			}
+		}
+		if !mirror && len(modeParams) > 0 {
+			for _, fa := range st.Facts() {
+				for _, pre := range modeParams {
+					if strings.HasPrefix(fa, pre) && strings.HasSuffix(fa, "=T") {
+						mirror = true
+					}
+				}
 			}
 		}
 		if !mirror {
@@ -548,7 +583,7 @@ func c03RequestIn(c *core.Ctx, f *flow.Func, sc *c03scope, stores []*c03hdrStore
 		switch {
 		case excused(st):
 			st.Set(evPayBad, flow.Unknown)
-		case len(mirrorKeys) == 0 && streamKnown(st):
+		case len(mirrorKeys) == 0 && len(modeParams) == 0 && streamKnown(st):
 			// no boolean parameter in sight: the mirror case may have been split off into a
 			// function of its own — a replaced stream body there cannot be told from a wrong body
 			st.Set(evPayBad, flow.Unknown)
@@ -1134,6 +1169,9 @@ func (k *c03cls) at(f *flow.Func, call *ast.CallExpr, arg ast.Expr, depth int) c
 		coll ast.Expr
 		call *ast.CallExpr
 		it   *c03iter
+		// the loop lives in a callback iterator (eachServer(list, func(s) bool {…})): its early
+		// exits depend on the callback's result
+		viaCallback, callbackAlwaysTrue bool
 	}
 	var cands []*cand
 	var res *flow.Result
@@ -1165,11 +1203,134 @@ func (k *c03cls) at(f *flow.Func, call *ast.CallExpr, arg ast.Expr, depth int) c
 				if !same(lp.coll) {
 					continue
 				}
+				found := false
 				for _, cl := range calls(lp.body, false) {
 					if k.writerOnElem(f, lp, cl) {
 						cands = append(cands, &cand{rs: lp.stmt, coll: lp.coll, call: cl, it: newC03iter(f, lp.stmt, nil)})
+						found = true
 						break
 					}
+				}
+				if found {
+					continue
+				}
+				// callback iterator: the loop body hands the element to a func parameter that is
+				// bound, at the iterator's call site, to a literal classifying its parameter
+				for _, cl := range calls(lp.body, false) {
+					id, ok := ast.Unparen(cl.Fun).(*ast.Ident)
+					if !ok {
+						continue
+					}
+					bound, _ := ast.Unparen(sc.bindExpr[c03obj(f, id)]).(*ast.FuncLit)
+					if bound == nil {
+						if be := sc.bindExpr[c03obj(f, id)]; be != nil {
+							r, _ := c03resolveLocal(f, be)
+							bound, _ = r.(*ast.FuncLit)
+						}
+					}
+					if bound == nil || bound.Type.Params == nil {
+						continue
+					}
+					var litParams []types.Object
+					for _, fl := range bound.Type.Params.List {
+						for _, pid := range fl.Names {
+							litParams = append(litParams, f.Info.Defs[pid])
+						}
+					}
+					var p types.Object
+					for j, a := range cl.Args {
+						if lp.isElem(f, a) && j < len(litParams) {
+							p = litParams[j]
+						}
+					}
+					if p == nil {
+						continue
+					}
+					var wcall *ast.CallExpr
+					for _, stmt := range bound.Body.List {
+						es, ok := stmt.(*ast.ExprStmt)
+						if !ok {
+							// a statement that can leave the callback before the classifier is reached
+							jumps := false
+							ast.Inspect(stmt, func(n ast.Node) bool {
+								switch n.(type) {
+								case *ast.BranchStmt, *ast.ReturnStmt:
+									jumps = true
+								}
+								return true
+							})
+							if jumps {
+								break
+							}
+							continue
+						}
+						wc, ok := es.X.(*ast.CallExpr)
+						if !ok {
+							continue
+						}
+						fo, ok := f.Callee(wc).(*types.Func)
+						if !ok || !(k.writers[fo] || k.writers[fo.Origin()]) {
+							continue
+						}
+						isP := func(e ast.Expr) bool {
+							pid, ok := ast.Unparen(e).(*ast.Ident)
+							return ok && c03obj(f, pid) == p
+						}
+						if sel, ok := ast.Unparen(wc.Fun).(*ast.SelectorExpr); ok && isP(sel.X) {
+							wcall = wc
+						}
+						for _, a := range wc.Args {
+							if isP(a) {
+								wcall = wc
+							}
+						}
+					}
+					if wcall == nil {
+						continue
+					}
+					alwaysTrue := true
+					ast.Inspect(bound.Body, func(n ast.Node) bool {
+						switch r := n.(type) {
+						case *ast.FuncLit:
+							return false
+						case *ast.ReturnStmt:
+							for _, e := range r.Results {
+								if tv, ok := f.Info.Types[e]; !ok || tv.Value == nil || tv.Value.ExactString() != "true" {
+									alwaysTrue = false
+								}
+							}
+						}
+						return true
+					})
+					// the callback is invoked unconditionally in every iteration: its call sits in the
+					// first statement of the loop body that can branch (expression statement,
+					// assignment, or the condition of an if)
+					uncond := false
+					for _, stmt := range lp.body.List {
+						holds := contains(stmt, cl)
+						if holds {
+							switch x := stmt.(type) {
+							case *ast.ExprStmt, *ast.AssignStmt:
+								uncond = true
+							case *ast.IfStmt:
+								uncond = contains(x.Cond, cl) || (x.Init != nil && contains(x.Init, cl))
+							}
+							break
+						}
+						jumps := false
+						ast.Inspect(stmt, func(n ast.Node) bool {
+							switch n.(type) {
+							case *ast.BranchStmt, *ast.ReturnStmt:
+								jumps = true
+							}
+							return true
+						})
+						if jumps {
+							break
+						}
+					}
+					cands = append(cands, &cand{rs: lp.stmt, coll: lp.coll, call: wcall, it: newC03iter(f, lp.stmt, nil), viaCallback: true, callbackAlwaysTrue: alwaysTrue && uncond})
+					break
 				}
 			}
 		}
@@ -1230,6 +1391,16 @@ func (k *c03cls) at(f *flow.Func, call *ast.CallExpr, arg ast.Expr, depth int) c
 	}
 	if unclassified == nil {
 		for _, cd := range cands {
+			if cd.viaCallback {
+				// the iterator's early exits depend on the callback's result: harmless iff the
+				// callback always asks to continue
+				if !cd.callbackAlwaysTrue {
+					return c03clsResult{"undecided", states[0], cd.rs, "the servers are classified by a callback handed to an iterator that may stop early depending on the callback's result: not followed"}
+				}
+				// (per-iteration coverage was established structurally: the callback is invoked
+				// unconditionally and classifies its parameter as a top-level statement)
+				continue
+			}
 			if early := breaksOut(f, cd.rs, ""); len(early) > 0 {
 				return c03clsResult{"bad", states[0], early[0], "the classification loop can be left early: later servers keep addrIsHostName=false and receive the client's Host although they are host-named"}
 			}
